@@ -553,8 +553,9 @@ def run_impl(case):
             elif w[0] == "matrix":
                 out.append("ok " + _flat(_transform(w[1:7], dt, lay).as_matrix()))
             elif w[0] == "rot":
-                mf, mm, n = int(w[1]), int(w[2]), int(w[3])
-                F, M = _parse(w[4], (mf, n, 3)), _parse(w[5], (mm, n, 3))
+                mf, mm = int(w[1]), int(w[2])
+                nf, nm = (int(x) for x in (w[3].split(":") if ":" in w[3] else (w[3], w[3])))
+                F, M = _parse(w[4], (mf, nf, 3)), _parse(w[5], (mm, nm, 3))
                 pairs = _parse(w[7], (int(w[6]), 2, 3, 3))
                 log = []
                 with _patched(np=_NpShim(pairs, log)):
@@ -568,6 +569,8 @@ def run_impl(case):
                     mask = mask.tolist()
                 elif mask is not None and case.get("mask_as") == "readonly":
                     mask.setflags(write=False)
+                elif mask is not None and case.get("mask_as") == "index" and len(mask) == n:
+                    mask = np.where(mask)[0]          # the same selection as an integer index array
                 pairs = _parse(w[10], (int(w[9]), 2, 3, 3))
                 if case.get("atoms"):
                     F, M = _as_atoms(F), _as_atoms(M)
@@ -581,7 +584,7 @@ def run_impl(case):
                 if case.get("atoms"):
                     F, M = _as_atoms(F), _as_atoms(M)
                 sc = case.get("scalars", ["py", "py", "py", "tuple"])     # the same numbers as NumPy scalars
-                minA = _spell_scalar(int(w[8]), sc[0]) if int(w[8]) >= 0 else int(w[8])
+                minA = _spell_scalar(int(w[8]), sc[0]) if (int(w[8]) >= 0 or sc[0][0] == "i") else int(w[8])
                 maxI = _spell_scalar(int(w[9]), sc[1]) if int(w[9]) >= 0 else int(w[9])
                 qs = [_spell_scalar(float(Fraction(w[10])), sc[2] if sc[2][0] == "f" else "py"),
                       _spell_scalar(float(Fraction(w[11])), sc[2] if sc[2][0] == "f" else "py")]
@@ -760,11 +763,17 @@ def _pairs(rng):
 
 def _gen_rot(rng):
     mf, mm = rng.choice([(1, 1), (1, 1), (2, 2), (3, 3), (1, 3), (3, 1), (2, 3), (1, 2)])
-    n = rng.choice([1, 2, 3, 4])
+    n = nm = rng.choice([1, 2, 3, 4])
+    ntok = str(n)
+    if rng.random() < 0.1:
+        # different atom counts, neither a single atom: numpy cannot broadcast -> ValueError (a single atom on one side
+        # would be repeated silently; that contradicts the documented atom correspondence and is not generated)
+        n, nm = rng.sample([2, 3, 4, 5], 2)
+        ntok = f"{n}:{nm}"
     F = [[[Fraction(rng.randint(-5, 5)) for _ in range(3)] for _ in range(n)] for _ in range(mf)]
-    M = [[[Fraction(rng.randint(-5, 5)) for _ in range(3)] for _ in range(n)] for _ in range(mm)]
+    M = [[[Fraction(rng.randint(-5, 5)) for _ in range(3)] for _ in range(nm)] for _ in range(mm)]
     npairs, ps = _pairs(rng)
-    return {"kind": "rot", "ops": [f"rot {mf} {mm} {n} {_toks(_flatten(F))} {_toks(_flatten(M))} {npairs} {_toks(_flatten(ps))}"]}
+    return {"kind": "rot", "ops": [f"rot {mf} {mm} {ntok} {_toks(_flatten(F))} {_toks(_flatten(M))} {npairs} {_toks(_flatten(ps))}"]}
 
 
 def _gen_sup(rng):
@@ -788,7 +797,7 @@ def _gen_sup(rng):
         mstr += "1"                          # malformed: mask longer than the structure
     npairs, ps = _pairs(rng)
     return {"kind": "sup", "atoms": rng.random() < 0.3, "layout": rng.choice(_LAYOUTS),
-            "mask_as": rng.choice(["ndarray", "ndarray", "list", "readonly"]),
+            "mask_as": rng.choice(["ndarray", "ndarray", "list", "readonly", "index"]),
             "ops": [f"sup {mstr} {dimF} {mf} {dimM} {mm} {n} {_toks(_flatten(F))} {_toks(_flatten(M))} {npairs} {_toks(_flatten(ps))}"]}
 
 
@@ -823,7 +832,7 @@ _THR = ["3/2", "3/2", "0", "1", "3", "1/2"]
 
 
 def _cfg(rng, malformed):
-    minA = rng.choice([0, 1, 2, 3, 3, 3, 4, 6])
+    minA = rng.choice([0, 1, 2, 3, 3, 3, 4, 6, -1, -3])     # negative: can never stop the loop, behaves like 0
     maxI = rng.choice([1, 2, 3, 10, 10, 10])
     q = rng.choice(_QUANT)
     if malformed and rng.random() < 0.5:
@@ -862,7 +871,7 @@ def _gen_hom(rng):
     Fx = [[list(base[i]) for i in range(totF)] for _ in range(mf)]
     Mx = [[[rng.randint(-6, 6) for _ in range(3)] for _ in range(totM)] for _ in range(mm)]
     minA, maxI, q, thr = _cfg(rng, rng.random() < 0.04)
-    if k == 0 and minA == 0:
+    if k == 0 and minA <= 0:
         minA = 1          # zero anchors (np.quantile of an empty array) is outside the property (n >= 1): unmodelled
     # the atoms that will be anchors (matched pairs, or same-rank backbone atoms in the fallback):
     # fixed position + integer-length displacement, so that sqrt(.)**2 is exact in float32
@@ -1040,7 +1049,7 @@ def _gen_fit(rng, search=False):
     shape = rng.choice(["generic", "generic", "generic", "planar", "collinear", "identical", "lattice", "polygon", "cube"])
     n = rng.choice([1, 1, 2, 3, 4, 5, 8, 13, 30])
     # coordinate extents from 1e-3 (nm / fractional units) to 1e4; everything else is relative to the extent
-    scale = rng.choice([0.5, 1, 1, 5, 20, 1e-3, 1e-2, 0.1, 1e3, 1e4])
+    scale = rng.choice([0.5, 1, 1, 5, 20, 1e-3, 1e-2, 0.1, 1e3, 1e4, 1e-6, 1e6, 1e8])
     offset = scale * rng.choice([0, 0, 10, 100])
     combo = rng.choice(["aa", "aa", "aa", "as", "as", "ss", "ss", "s1s1", "s1a", "as1", "sa"])
     mf = {"aa": 0, "as": 0, "ss": rng.choice([2, 3]), "s1s1": 1, "s1a": 1, "as1": 0, "sa": rng.choice([2, 3])}[combo]
@@ -1095,7 +1104,7 @@ def _gen_fit(rng, search=False):
             "fixed": fixed32.tolist(), "mobile": mobile32.tolist(), "mask": mask,
             "atoms": rng.random() < 0.3, "pseed": rng.randint(0, 2**31)}
     case["layout"] = rng.choice(_LAYOUTS)
-    case["mask_as"] = rng.choice(["ndarray", "ndarray", "list", "readonly"])
+    case["mask_as"] = rng.choice(["ndarray", "ndarray", "list", "readonly", "index"])
     if mask is not None and not all(mask):
         # atoms OUTSIDE the mask must not matter: unresolved atoms often carry NaN / inf / placeholder coordinates
         outside = [i for i, b in enumerate(mask) if not b]
@@ -1192,11 +1201,60 @@ def _gen_woo_float(rng):
                         rng.choice(["py", "py", "f16", "f32", "f64"]), rng.choice(["tuple", "list", "ndarray"])]}
 
 
+def _gen_homamb(rng):
+    """What `_gen_homc` filters out: short / low-complexity chains, long and arbitrary deletions, equal neighbours,
+    sequence differences.  A sequence method may legitimately pair non-corresponding residues here, so only what the
+    property states for the homolog variant is demanded (oracle `_oracle_homamb`): the reported fit is the optimal fit of
+    the reported anchor pairs."""
+    import numpy as np
+    from biotite.sequence import ProteinSequence
+    nuc = rng.random() < 0.3
+    alpha = (_NUC[:rng.choice([2, 4])] if nuc else _AA[:rng.choice([3, 6, 20])])
+    n_chains = rng.choice([1, 2, 3])
+    atoms = {"f": ([], [], [], [], []), "m": ([], [], [], [], [])}
+    pos = np.zeros(3)
+    for ci in range(n_chains):
+        L = rng.randint(3, 14)
+        letters = [rng.choice(alpha) for _ in range(L)]
+        ca = []
+        for _ in range(L):
+            step = np.array([rng.gauss(0, 1) for _ in range(3)])
+            pos = pos + step * (3.8 / (np.linalg.norm(step) or 1.0))
+            ca.append(pos.copy())
+        for key in ("f", "m"):
+            keep = [rng.random() < rng.choice([1.0, 0.8, 0.5]) for _ in range(L)]
+            if not any(keep):
+                keep[rng.randrange(L)] = True
+            for i in range(L):
+                if keep[i]:
+                    ch = letters[i] if rng.random() < 0.9 else rng.choice(alpha)       # point mutations
+                    names, resn, chain, resid, coords = atoms[key]
+                    names.append("P" if nuc else "CA")
+                    resn.append(ch if nuc else ProteinSequence.convert_letter_1to3(ch))
+                    chain.append(chr(ord("A") + ci))
+                    resid.append(i + 1)
+                    coords.append(ca[i] + (np.array([rng.gauss(0, 1) for _ in range(3)]) * rng.choice([0, 0, 0.3]) if key == "m" else 0))
+    Q, t = _rand_rotation(rng), np.array([rng.gauss(0, 1) for _ in range(3)]) * 20
+    out = {}
+    for key in ("f", "m"):
+        names, resn, chain, resid, coords = atoms[key]
+        c = np.array(coords)
+        if key == "m":
+            c = c @ Q.T + t
+        out[key] = {"coord": c.astype(np.float32).tolist(), "atom_name": names, "res_name": resn, "chain_id": chain, "res_id": resid}
+    return {"kind": "homamb", "fixed_atoms": out["f"], "mobile_atoms": out["m"], "nuc": nuc,
+            "min_anchors": rng.choice([1, 2, 3, 3, 5]), "n_chains": n_chains,
+            "hom_kwargs": rng.choice([{}, {}, {"max_iterations": 1}, {"terminal_penalty": True}, {"gap_penalty": [-10, -1]}])}
+
+
 def _gen_refuse(rng):
     """Calls that must be refused; afterwards every argument equals its snapshot (oracle `_oracle_refuse`)."""
     n = rng.choice([1, 2, 3, 5, 8])
     what = rng.choice(["mask-length", "model-counts", "stack-onto-single", "woo-iterations", "woo-quantiles",
-                       "rmsd-reference", "mask-length", "apply-broadcast"])
+                       "rmsd-reference", "mask-length", "apply-broadcast",
+                       # regions the model abstains from / the theorems exclude by hypothesis (audit 6):
+                       "atom-counts", "nonfinite-selected", "nonfinite-selected", "empty-selection", "woo-empty",
+                       "overflowing-coordinates"])
     return {"kind": "refuse", "what": what, "n": n, "m": rng.choice([2, 3]), "atoms": rng.random() < 0.4,
             "seed": rng.randint(0, 2**31), "layout": rng.choice(_LAYOUTS)}
 
@@ -1233,8 +1291,10 @@ def cases(rng, tier):
         yield _gen_fit_large(rng)
     for _ in range(1 * k):
         yield _gen_rot_large(rng)
-    for _ in range(40 * k):
+    for _ in range(60 * k):
         yield _gen_refuse(rng)
+    for _ in range(50 * k):
+        yield _gen_homamb(rng)
     for _ in range(80 * k):
         yield _gen_rigidapi(rng)
 
@@ -1542,6 +1602,8 @@ def _oracle_fit(case):
     elif mask is not None and case.get("mask_as") == "readonly":
         mask_arg = mask.copy()
         mask_arg.setflags(write=False)
+    elif mask is not None and case.get("mask_as") == "index":
+        mask_arg = np.where(mask)[0]
     snap = (_snapshot(F), _snapshot(M), _snapshot(mask_arg))
     f3 = fixed if fixed.ndim == 3 else fixed[None]
     m3 = mobile if mobile.ndim == 3 else mobile[None]
@@ -1783,10 +1845,22 @@ def _oracle_homc(case):
     except ValueError as e:
         if fch != mch:
             return []                 # different number of chains: refused (zip strict)
-        # too few backbone atoms / anchors is a documented refusal
-        if "too few" in str(e) or "fallback" in str(e):
+        # documented refusals, accepted only where their condition really holds (computed independently of the message):
+        # fewer backbone anchors than min_anchors, or fewer matched anchors than min_anchors AND different backbone counts
+        minA = case.get("min_anchors", 3)
+        back = lambda a: int(np.count_nonzero(np.isin(a.atom_name, ["CA", "P"])))   # noqa: E731
+        nF, nM = back(F), back(M)
+        if nF < minA or nM < minA:
             return []
-        return [("C16/homologs/unexpected-exception", f"ValueError: {e}")]
+        try:
+            FI, MI = S._get_backbone_anchor_indices(F), S._get_backbone_anchor_indices(M)
+            nA = len(S._find_matching_anchors(F[..., FI], M[..., MI], kw.get("substitution_matrix"), kw.get("gap_penalty", -10),
+                                               kw.get("terminal_penalty", False)))
+        except Exception:  # noqa: BLE001
+            nA = None
+        if nA is not None and nA < minA and nF != nM:
+            return []
+        return [("C16/homologs/valid-input-refused", f"ValueError: {e} ({nF}/{nM} backbone atoms, {nA} matched anchors, min_anchors={minA})")]
     except Exception as e:  # noqa: BLE001
         return [("C16/homologs/unexpected-exception", f"{type(e).__name__}: {e} ({case.get('n_chains')} chains)")]
     if fch != mch:
@@ -1858,6 +1932,56 @@ def _oracle_refuse(case):
     elif what == "rmsd-reference":
         args = [wrap(g(m, n, 3)), wrap(g(m, n, 3))]
         call, exp = (lambda: struc.rmsd(args[0], args[1])), (TypeError,)
+    elif what == "atom-counts":
+        # different atom counts, neither a single atom (which numpy would silently repeat: contradicts the documented
+        # atom correspondence, not demanded either way): no fit may be reported
+        na, nb = r.sample([2, 3, 4, 5, 7], 2)
+        args = [wrap(g(na, 3)), wrap(g(nb, 3))]
+        call, exp = (lambda: S.superimpose(args[0], args[1])), (ValueError,)
+    elif what in ("nonfinite-selected", "empty-selection", "woo-empty", "overflowing-coordinates"):
+        # not point sets with n >= 1 finite atoms: the call must be LOUD — an exception, or a result that is visibly
+        # non-finite; a finite transformation would be a silently wrong fit
+        n2 = max(n, 2)
+        a, b = g(n2, 3), g(n2, 3)
+        mask = None
+        if what == "nonfinite-selected":
+            bad = r.choice([np.nan, np.inf, -np.inf])
+            (a if r.random() < 0.5 else b)[r.randrange(n2), r.randrange(3)] = bad
+            if r.random() < 0.4:
+                mask = np.ones(n2, dtype=bool)
+        elif what == "overflowing-coordinates":
+            a, b = a * np.float32(1e20), b * np.float32(1e20)     # squares overflow float32
+        elif what == "empty-selection":
+            if r.random() < 0.5:
+                mask = np.zeros(n2, dtype=bool)
+            else:
+                a, b = a[:0], b[:0]
+        else:
+            a, b = a[:0], b[:0]
+        args = [wrap(a), wrap(b)] + ([mask] if mask is not None else [])
+        snap = [_snapshot(x) for x in args]
+        import warnings
+        try:
+            with warnings.catch_warnings(), np.errstate(all="ignore"):
+                warnings.simplefilter("ignore")
+                if what == "woo-empty":
+                    res = S.superimpose_without_outliers(args[0], args[1])
+                else:
+                    res = S.superimpose(args[0], args[1], atom_mask=mask)
+        except (np.linalg.LinAlgError, ValueError, IndexError, FloatingPointError, ZeroDivisionError):
+            res = None
+        except Exception as e:  # noqa: BLE001
+            return [(f"C16/refuse/{what}/wrong-error", f"{type(e).__name__}: {e}")]
+        if [_snapshot(x) for x in args] != snap:
+            return [(f"C16/refuse/{what}/changed-arguments", f"the call `{what}` modified its arguments")]
+        if res is not None:
+            Tr = res[1]
+            finite = all(np.all(np.isfinite(x)) for x in (Tr.rotation, Tr.center_translation, Tr.target_translation))
+            if what == "woo-empty" or finite:
+                return [(f"C16/refuse/{what}/silent-finite-result",
+                         f"`{what}` returned a finite transformation instead of raising (or a visibly non-finite result): "
+                         f"rotation {np.asarray(Tr.rotation).ravel()[:3].tolist()}")]
+        return []
     else:   # apply-broadcast: 2 centre translations for 3 rotations
         T = S.AffineTransformation(g(2, 3), np.stack([np.eye(3, dtype=np.float32)] * 3), g(1, 3))
         args = [wrap(g(3, n, 3))]
@@ -1909,7 +2033,13 @@ def _oracle_rigidapi(case):
             Y = struc.rotate_about_axis(X, nzvec(), ang, support=vec(sc))
         elif fn == "orient_principal_components":
             if case["stack"] or n < 3:
-                return []
+                # documented domain: one model with at least 3 atoms; anything else must be refused with ValueError
+                try:
+                    struc.orient_principal_components(X)
+                except ValueError:
+                    return [] if _snapshot(X) == snap else [("C16/rigid-motion/orient_principal_components/modified-input", "refused call modified its input")]
+                return [("C16/rigid-motion/orient_principal_components/degenerate-input-accepted",
+                         f"{'a stack' if case['stack'] else str(n) + ' atom(s)'} accepted instead of ValueError")]
             Y = struc.orient_principal_components(X)
         elif fn.startswith("align_vectors"):
             a, b = nzvec(), nzvec()
@@ -1950,6 +2080,61 @@ def _oracle_rigidapi(case):
         if abs(float(struc.rmsd(X3[k], fitted)) - r0) > tol:
             v.append(("C16/rmsd/differs-from-definition", f"rmsd() = {float(struc.rmsd(X3[k], fitted)):.6g}, independent {r0:.6g}"))
             break
+    return v
+
+
+def _oracle_homamb(case):
+    """Ambiguous homolog input: the anchor pairing is the sequence method's business, but the reported fit must be the
+    optimal fit of the reported anchor pairs, reproduce `apply`, and refusals are only the documented ones."""
+    import numpy as np
+    S = _mod()
+    F, M = _atoms_from(case["fixed_atoms"]), _atoms_from(case["mobile_atoms"])
+    minA = case.get("min_anchors", 3)
+    kw = dict(case.get("hom_kwargs") or {})
+    if isinstance(kw.get("gap_penalty"), list):
+        kw["gap_penalty"] = tuple(kw["gap_penalty"])
+    fch = [c for i, c in enumerate(F.chain_id) if i == 0 or F.chain_id[i - 1] != c]
+    mch = [c for i, c in enumerate(M.chain_id) if i == 0 or M.chain_id[i - 1] != c]
+    nF, nM = F.array_length(), M.array_length()          # backbone-only structures
+    snap = (_snapshot(F), _snapshot(M))
+    try:
+        fitted, T, fi, mi = S.superimpose_homologs(F, M, min_anchors=minA, **kw)
+    except ValueError as e:
+        if (_snapshot(F), _snapshot(M)) != snap:
+            return [("C16/homologs/refused-call-modified-arguments", str(e))]
+        if len(fch) != len(mch) or nF < minA or nM < minA:
+            return []
+        try:
+            nA = len(S._find_matching_anchors(F, M, None, kw.get("gap_penalty", -10), kw.get("terminal_penalty", False)))
+        except Exception:  # noqa: BLE001
+            nA = None
+        if nA is not None and nA < minA and nF != nM:
+            return []
+        return [("C16/homologs/valid-input-refused", f"ValueError: {e} ({nF}/{nM} backbone atoms, {nA} matched, min_anchors={minA})")]
+    except Exception as e:  # noqa: BLE001
+        return [("C16/homologs/unexpected-exception", f"{type(e).__name__}: {e} ({case.get('n_chains')} chains, {nF}/{nM} atoms)")]
+    if (_snapshot(F), _snapshot(M)) != snap:
+        return [("C16/homologs/arguments-modified", "superimpose_homologs() modified fixed or mobile")]
+    fi, mi = [int(i) for i in fi], [int(i) for i in mi]
+    v = []
+    if len(fi) != len(mi) or not fi or min(fi) < 0 or max(fi) >= nF or min(mi) < 0 or max(mi) >= nM \
+            or sorted(set(fi)) != fi or sorted(set(mi)) != mi:
+        return [("C16/homologs/anchor-indices-malformed", f"fixed {fi} / mobile {mi} for {nF}/{nM} atoms")]
+    if len(fi) < min(minA, nF, nM):
+        v.append(("C16/homologs/fewer-than-min-anchors", f"{len(fi)} anchors, min_anchors={minA}"))
+    if not np.array_equal(T.apply(M).coord, fitted.coord):
+        v.append(("C16/homologs/apply-does-not-reproduce-fitted", "fitted != transform.apply(mobile)"))
+    # the reported transformation is the fit of exactly the reported anchor pairs, and optimal for them
+    _, T2 = S.superimpose(F.coord[fi], M.coord[mi])
+    if not all(np.array_equal(a, b) for a, b in ((T.rotation, T2.rotation), (T.center_translation, T2.center_translation),
+                                                 (T.target_translation, T2.target_translation))):
+        v.append(("C16/homologs/transform-not-fitted-on-returned-anchors", f"anchors fixed {fi[:8]} / mobile {mi[:8]}"))
+    X, Y0, Y = F.coord[fi], M.coord[mi], fitted.coord[mi]
+    r0 = _rmsd64(X, Y)
+    ropt = math.sqrt(_horn_min_ssd(X, Y0) / len(fi))
+    tol = _tol(F.coord, M.coord, fitted.coord)
+    if r0 > _allowed_rmsd(X, Y0, ropt, tol):
+        v.append(("C16/homologs/anchor-rmsd-above-optimum", f"anchor RMSD {r0:.6g} > optimum {ropt:.6g} on {len(fi)} anchors"))
     return v
 
 
@@ -2001,6 +2186,8 @@ def oracle(case):
         return _oracle_homc(case)
     if k == "refuse":
         return _oracle_refuse(case)
+    if k == "homamb":
+        return _oracle_homamb(case)
     if k == "rigidapi":
         return _oracle_rigidapi(case)
     return []
@@ -2016,7 +2203,7 @@ def nontrivial(case, impl_out):
         return True
     if k == "homc":
         return case.get("n_chains", 1) >= 2
-    if k in ("refuse", "rigidapi"):
+    if k in ("refuse", "rigidapi", "homamb"):
         return True
     if impl_out and any(o.startswith("ERR") for o in impl_out):
         return True
